@@ -245,10 +245,12 @@ def run(ctx):
             exp = '(Raise %s)' % d[1]
         add('res_eqb (pair_eqb %s zs_eqb) (%s %s) %s' % (EQ[kind], DEC[kind], cbytes(b), exp), {'op': 'dec ' + kind, 'bytes': b.hex(), 'impl': repr(d)}, ('dec', kind, d[0]))
     # ---- strings and name-lists ----
-    alphabet = b'abcxyz-@.019=+/_'
+    alphabet = 'abcxyz-@.019=+/_'
+    wide = alphabet + '\u00e9\u20ac\U0001f600\u00df'   # names are text in the tool: valid multi-byte UTF-8 must keep byte-exact lengths
     def name():
-        return bytes(rng.choice(alphabet) for _ in range(rng.choice([0, 1, 1, 3, 8, 20])))
-    lists = [[b''], [b'a'], [b'', b''], [b'a', b''], [b'', b'a'], [b'x' * 300]]
+        a = wide if rng.random() < 0.25 else alphabet
+        return ''.join(rng.choice(a) for _ in range(rng.choice([0, 1, 1, 3, 8, 20]))).encode('utf-8')
+    lists = [[b''], [b'a'], [b'', b''], [b'a', b''], [b'', b'a'], [b'x' * 300], ['priv\u00e9-alg@example.org'.encode()], ['\u20ac'.encode(), b'a', '\U0001f600x'.encode()]]
     for _ in range(60 if q else 2000):
         lists.append([name() for _ in range(rng.choice([1, 1, 2, 3, 6]))])
     for l in lists:
@@ -261,6 +263,19 @@ def run(ctx):
             ctx.violation('roundtrip/namelist', 'name-list %r decodes as %r' % (l, d), {'op': 'roundtrip namelist', 'l': repr(l)})
         if impl_enc('namelist', got)[1] != r[1]:
             ctx.violation('reencode/namelist', 're-encoding decoded name-list %r differs' % (l,), {'op': 'reencode namelist', 'l': repr(l)})
+    # write_string of bytes and of text (text is written as its UTF-8 bytes, the length field counts bytes)
+    for i in range(40 if q else 1500):
+        if i % 2:
+            raw = bytes(rng.randrange(256) for _ in range(rng.choice([0, 1, 2, 7, 33, 300])))
+            arg = raw
+        else:
+            raw = name() if i % 4 else ''.join(rng.choice(wide) for _ in range(rng.randrange(1, 12))).encode('utf-8')
+            arg = raw.decode('utf-8')
+        r = impl_enc('string', arg)
+        add('res_eqb zs_eqb (enc_string %s) %s' % (cbytes(raw), cres_enc(r)), {'op': 'enc string', 'arg': repr(arg), 'impl': repr(r)}, ('string', type(arg).__name__, min(len(raw), 40)))
+        d = impl_dec('string', r[1]) if r[0] == 'ok' else None
+        if d is None or d[0] != 'ok' or d[1] != raw or d[2] != b'':
+            ctx.violation('roundtrip/string', 'write_string(%r) is read back as %r' % (arg, d), {'op': 'roundtrip string', 'arg': repr(arg)})
     # non-UTF-8 stream: decoding with replacement commutes with splitting (implementation-only check)
     from ssh_audit.readbuf import ReadBuf
     for _ in range(300 if q else 20000):
